@@ -339,7 +339,8 @@ func init() {
 				}
 				cats := fam.Digraphs(3, idx, pl, "grp", deferBoth, tree)
 				cats = append(cats, fam.Sample(fam.Chain(recBoth, false), rep.Seed, scale(rep.Tier, 25, 200))...)
-				livenessStage(rep, "digraphs+chain", cats, Bounds{MaxInv: 1, MaxFaults: 1, FaultKinds: errKinds})
+				cats = append(cats, fam.Sample(fam.Reenter(recBoth, false), rep.Seed, scale(rep.Tier, 10, 80))...)
+				livenessStage(rep, "digraphs+chain+reenter", cats, Bounds{MaxInv: 1, MaxFaults: 1, FaultKinds: errKinds})
 			}})})
 
 	register(&propDef{id: "C06",
